@@ -417,6 +417,13 @@ fn wa_fields(t: &mut Trace, rng: &mut Rng, k: &P256Key, k2: &P256Key) {
         format!("{{\"type\":\"webauthn.get\",\"challenge\":\"{}\",\"extra\":{{\"type\":\"webauthn.create\"}}}}", chal),
         format!("{{\"extra\":{{\"type\":\"webauthn.get\",\"challenge\":\"{}\"}}}}", chal),
         format!("\u{feff}{{\"type\":\"webauthn.get\",\"challenge\":\"{}\"}}", chal),
+        // ignored members carrying JSON escapes, short and long (a browser escapes `/` in origins; extensions add
+        // members of any size): they are skipped, whatever their length
+        format!("{{\"type\":\"webauthn.get\",\"challenge\":\"{}\",\"origin\":\"https:\\/\\/example.org\"}}", chal),
+        format!("{{\"type\":\"webauthn.get\",\"challenge\":\"{}\",\"origin\":\"https:\\/\\/{}.example.org\",\"crossOrigin\":false}}", chal, "a".repeat(80)),
+        format!("{{\"type\":\"webauthn.get\",\"challenge\":\"{}\",\"note\":\"{}\"}}", chal, "say \\\"hi\\\" ".repeat(12)),
+        format!("{{\"{}\\u0041\":1,\"type\":\"webauthn.get\",\"challenge\":\"{}\"}}", "k".repeat(70), chal),
+        format!("{{\"origin\":\"{}\\n\",\"type\":\"webauthn.get\",\"challenge\":\"{}\"}}", "o".repeat(64), chal),
         String::new(),
         "{}".to_string(),
         "null".to_string(),
